@@ -360,6 +360,12 @@ def misuse_workload(res, rng):
     ValueBase = type("ValueBase", (Structure,), {"x": Member("Q")})
     Value = type("Value", (ValueBase,), {"y": Member("Q"),
                                           "z": Member(rng.choice("IHB"))})
+    base_used = rng.random() < 0.5
+    if base_used:
+        # the base structures have been in use before (by another table,
+        # say): objects of them exist
+        KeyBase()
+        ValueBase()
     with kern.session() as sess:
         ns = {"license": "GPL",
               "d": Dict(key=Key, value=Value, size=8,
@@ -375,7 +381,9 @@ def misuse_workload(res, rng):
             try:
                 ld.load()
                 k = Key()
-                k.a, k.b = 7, 9
+                k.a = 7
+                if not base_used:
+                    k.b = 9          # (else only inherited members are set)
                 e.d[k] = Value()
                 for what in ("get", "set-key", "set-value", "pop", "del"):
                     for wrong in (Structure, KeyBase, ValueBase):
@@ -503,6 +511,14 @@ def run_shard(params):
         sysmon.Monitor.current = None
         try:
             absorb(fn(case, scratch, monitor=True), res, what)
+        except (struct.error, ValueError, TypeError, KeyError) as ex:
+            # the code under test failed in Python before / between map
+            # calls (C09 judges that); what the monitor saw still counts
+            mon = sysmon.Monitor.current
+            res.count("workloads_ended_by_a_python_error (C09's business)")
+            if mon is not None:
+                mon.__exit__()
+                absorb(mon, res, what)
         except OSError as ex:
             # a call the monitor refused (or another failure of the code
             # under test): report what the monitor saw until then
